@@ -26,7 +26,7 @@ HEADER = ("From Coq Require Import List ZArith Bool Uint63.\nImport ListNotation
           "From GT Require Import WGModel WGSpec WGJudge.\n")
 CASE_TYPE = "list int"
 # files the judge needs that are not in the Require cone of the property theorems
-COQ_TARGETS = ["WGJudge.vo", "WGProg.vo", "WGSearch.vo", "WGSimHand.vo", "WGSimProps.vo"]
+COQ_TARGETS = ["WGJudge.vo", "WGJudgeProofs.vo", "WGProg.vo", "WGSearch.vo", "WGSimHand.vo", "WGSimProps.vo"]
 
 EXPORT_VERIF = '''package gsync
 
